@@ -849,6 +849,11 @@ impl TokenParser {
     /// Otherwise, returns false.
     /// This generally should be called after consume_token().
     pub fn check_stop(&mut self) -> Result<bool> {
+        if !self.stop_reason.is_ok() {
+            // already stopped with an error (e.g. a rejected token, possibly partially applied);
+            // do not let a later "grammar complete" decision overwrite that with a normal stop
+            return Err(self.anyhow_error());
+        }
         let empty_token_prefix = !self.has_ff_bytes();
         let pending_eos = self
             .llm_tokens
